@@ -200,6 +200,7 @@ pub fn gen_case(preset: Preset, seed: u64, index: u64) -> Option<HistoryCase> {
             raw_texts: None,
             across_threads: false,
             failed_parse_first: false,
+            render_between: false,
         });
     }
     None
